@@ -187,6 +187,10 @@ def run_program(tier, idx, prog=None, plan=None, seed=None):
                             ent['exc'] = exc_name(e)
                         ent['line'] = dict(call, op='key', km=dict(typed=bool(kmo.get('typed')), flat=kmo.get('flat', True),
                                                                   mark=sent if kmo.get('sentinel') else None))
+                        if kmk == 'chain':
+                            io = kmo['_inner'][1]
+                            ent['line'].update(inner=dict(typed=bool(io.get('typed')), flat=io.get('flat', True), mark=sent if io.get('sentinel') else None),
+                                               tupTy=I(tuple))
                         rec['keys'].append(ent)
                     # the same key through a real decorator (one of the twelve classes, by program index):
                     # its own `key()` site, its own handling of the `ignore` argument (bare int / str allowed)
@@ -203,6 +207,10 @@ def run_program(tier, idx, prog=None, plan=None, seed=None):
                         ent['exc'] = exc_name(e)
                     ent['line'] = dict(call, op='key', km=dict(typed=bool(kmo.get('typed')), flat=kmo.get('flat', True),
                                                               mark=sent if kmo.get('sentinel') else None))
+                    if kmk == 'chain':
+                        io = kmo['_inner'][1]
+                        ent['line'].update(inner=dict(typed=bool(io.get('typed')), flat=io.get('flat', True), mark=sent if io.get('sentinel') else None),
+                                           tupTy=I(tuple))
                     rec['keys'].append(ent)
                 group_keys.append((g, rec))
                 recs.append(rec)
@@ -385,7 +393,22 @@ def analyse(prop, progs):
             ent = rec['keys'][ki]
             kmk, kmo = ent['km']
             if 'key' not in ent: continue
-            if kmk == 'raw':
+            if kmk == 'chain' and 'outer' in m:
+                # enc_outer(enc_inner(struct_inner((struct_outer,)))): both structured keys come from the model
+                outer_obj = rebuild(I, kmo, m['outer'])
+                ik, io = kmo['_inner']
+                class _X(dict): pass
+                Iobj = lambda i: outer_obj if i == 1000000 else I.obj(i)
+                mi = m['inner']
+                if io.get('flat', True):
+                    inner_obj = Iobj(mi['scalar']) if 'scalar' in mi else tuple(Iobj(i) for i in mi['tup'])
+                else:
+                    inner_obj = (tuple(Iobj(i) for i in mi['args']), dict((Iobj(n), Iobj(v)) for n, v in mi['kwds']))
+                    if mi['types'] is not None: inner_obj += (tuple(Iobj(i) for i in mi['types'][0]), tuple(Iobj(i) for i in mi['types'][1]))
+                exp = sk.encoder(kmo['_outer_kind'])(sk.encoder(ik)(inner_obj))
+                if exp != ent['key']:
+                    d = dict(what='encoded key', km=ent['km'], impl=repr(ent['key'])[:200], model=repr(exp)[:200])
+            elif kmk == 'raw':
                 act = intern_key(I, kmk, kmo, ent['key'])
                 if kmo.get('flat', True): same = act == m
                 else:
